@@ -20,6 +20,29 @@ def gen_text(r2, maxlen, alpha=None):
     return s
 
 
+def make_block_case(r2, W):
+    """One hunk of 2-4 consecutive modified lines whose added versions are longer than the removed ones by
+    different amounts (the two sides of a paired line wrap into different numbers of rows), optionally
+    preceded by an unpaired removed line."""
+    panel = max(3, W // 2 - 6)
+    lines = ["diff --git a/alphaZ1Z.rs b/alphaZ1Z.rs", "index 1111111..2222222 100644", "--- a/alphaZ1Z.rs", "+++ b/alphaZ1Z.rs"]
+    k = r2.randint(2, 4)
+    minus, plus = [], []
+    if r2.random() < 0.4:
+        minus.append("unpaired zq" + "u" * r2.randint(0, panel))
+    for i in range(k):
+        base = f"common words line{i} " + "abc " * r2.randint(1, max(1, panel // 3))
+        minus.append(base + "end")
+        plus.append(base + "and a longer tail " + "xyz " * r2.randint(0, panel) + "end")
+    if r2.random() < 0.5:
+        minus, plus = plus, minus
+    lines.append(f"@@ -10,{len(minus)} +12,{len(plus)} @@ fragZ1Z")
+    lines += ["-" + t for t in minus] + ["+" + t for t in plus]
+    left = [{"z": 0, "t": [ord(c) for c in t]} for t in minus]
+    right = [{"z": 0, "t": [ord(c) for c in t]} for t in plus]
+    return ("\n".join(lines) + "\n").encode(), left, right
+
+
 def make_case(r2, maxlen, shared, alpha=None):
     nh = r2.choice([1, 1, 2])
     lines = ["diff --git a/alphaZ1Z.rs b/alphaZ1Z.rs", "index 1111111..2222222 100644", "--- a/alphaZ1Z.rs", "+++ b/alphaZ1Z.rs"]
@@ -75,6 +98,9 @@ def run(tier):
             W = max(W, 18)      # marker column + wrap symbol already fill a two-column panel
         if i % 5 == 0:
             extra += ["--wrap-right-percent", r2.choice(["1", "37", "80"])]
+        if i % 13 == 3:
+            # other single-column symbols (double-width ones are rejected by delta)
+            extra += ["--wrap-left-symbol", ">", "--wrap-right-symbol", "<", "--wrap-right-prefix-symbol", "_"]
         if i % 11 == 0:
             # (the right format must begin with a decoration character: the parser finds the right panel there)
             extra += ["--line-numbers-left-format", "{nm:>2}|", "--line-numbers-right-format", ":{np:>2}|"]
@@ -87,7 +113,10 @@ def run(tier):
         # a two-column panel cannot hold a double-width character next to a wrap symbol: below width 18
         # (text width 3) the statement is only meaningful for narrow characters
         wmin = 20 if "--keep-plus-minus-markers" in extra else 18     # the marker column takes one more
-        data, left, right = make_case(r2, maxlen if W >= wmin else min(maxlen, 12), shared=(i % 2 == 0),
+        if i % 6 == 5 and W >= 24:
+            data, left, right = make_block_case(r2, W)
+        else:
+          data, left, right = make_case(r2, maxlen if W >= wmin else min(maxlen, 12), shared=(i % 2 == 0),
                                       alpha=None if W >= wmin else NARROW_ALPHA)
         args = gitskin.rs_args(W) + ["--side-by-side", "--wrap-max-lines", "unlimited" if limit < 0 else str(limit)] + extra
         return data, left, right, core.run_delta(args, data, timeout=15, mem_kb=2_000_000)
@@ -101,7 +130,8 @@ def run(tier):
         rows = []
         keep = "--keep-plus-minus-markers" in extra
         for b in r.out.split(b"\n")[:-1]:
-            p = gitskin.parse_sbs_row(b)
+            syms = ({"left": ">", "right": "<", "prefix": "_", "trunc": "→"} if "--wrap-left-symbol" in extra else None)
+            p = gitskin.parse_sbs_row(b, syms)
             if p is None:
                 continue
             lt, lw, lx, lra = p["lp"]
